@@ -61,6 +61,9 @@ pub fn scenarios(thorough: bool) -> Vec<Sc> {
         v.push(base(kind, Variant::Linked, Site::PreStart, P::Err, Closer::None));
         v.push(base(kind, Variant::Plain, Site::Handle, P::SendsSelf, Closer::Drain));
         v.push(base(kind, Variant::Linked, Site::Handle, P::SelfKill, Closer::None));
+        // a stopper, a drainer and a killer at once
+        v.push(base(kind, Variant::Linked, Site::Handle, P::Awaits, Closer::StopDrainKill));
+        v.push(base(kind, Variant::Plain, Site::PostStop, P::Awaits, Closer::StopDrainKill));
         let mut p = base(kind, Variant::LinkedInstant, Site::Handle, P::Awaits, Closer::Drain);
         p.pg_event = true;
         p.senders = 1;
